@@ -75,6 +75,16 @@ static void model_case_impl(Case& c, int l0pass, std::vector<std::string>* snaps
         for (auto& m : h.m) { if (m(a, b) > 3) { excess += m(a, b) - 3; m(a, b) = 3; } }
         h.i(a, b) -= excess; h.s(a, b) += excess;
     }
+    {   // the library's own find_suitable_cells (both overloads) against the definition: cells with a positive value, row-major
+        IRaster other(rows, cols, 0); for (int a = 0; a < rows; a++) for (int b = 0; b < cols; b++) other(a, b) = rng.coin(30) ? rng.in(1, 3) : 0;
+        auto one = find_suitable_cells<int>(h.th);
+        std::vector<const IRaster*> two{&h.th, &other};
+        auto both = find_suitable_cells<int>(two);
+        out << "hp.findsuit " << rows << " " << cols << " |" << rlist(h.th) << " |" << rlist(other) << " => |";
+        for (auto& c2 : one) out << " " << c2[0] << "," << c2[1];
+        out << " |"; for (auto& c2 : both) out << " " << c2[0] << "," << c2[1];
+        out << "\n";
+    }
     Config config;
     config.rows = rows; config.cols = cols; config.ew_res = 30; config.ns_res = 30;
     config.model_type = sei ? "SEI" : "SI"; config.latency_period_steps = latency;
@@ -159,7 +169,7 @@ static void model_case_impl(Case& c, int l0pass, std::vector<std::string>* snaps
             h.te(ar, ac) = se; h.th(ar, ac) = se;
             h.s(br, bc) = 0; h.i(br, bc) = 0; h.r(br, bc) = 0; h.te(br, bc) = 0; h.th(br, bc) = 0;
             for (auto& m : h.m) m(br, bc) = 0; for (auto& x : h.e) x(br, bc) = 0;
-            h.suitable = find_suitable_cells<int>(h.th);
+            h.suitable = suitable_cells_of(h.th);
             movements.push_back({ar, ac, br, bc, rng.coin(50) ? se : se + rng.in(0, 5)});
             config.movement_schedule.push_back(cur);
             stats.add("exposed_only_herd_into_empty_cell");
